@@ -60,6 +60,23 @@ Fixpoint ctrr_reads (st : ctrr) (ns : list N) : list bytes :=
   end.
 End Reads.
 
+(* the same caller loop seen lazily: what the reads returned BEFORE the first failing one is kept (the caller has
+   it in hand), and how the sequence ended: FinOk = every read returned, FinErr e = the read after `outs` returned
+   the error e (a read that fails returns no byte count: what it had copied into the caller's buffer is lost) *)
+Section ReadsPartial.
+Variable D : bytes -> bytes -> bytes.
+Fixpoint cbcr_reads_partial (st : cbcr) (ns : list N) : list bytes * fin :=
+  match ns with
+  | [] => ([], FinOk)
+  | n :: r =>
+    match cbcr_read D st n with
+    | Ok (st', out) => let (rest, f) := cbcr_reads_partial st' r in (out :: rest, f)
+    | Err e => ([], FinErr e)
+    | Panic => ([], FinPanic)
+    end
+  end.
+End ReadsPartial.
+
 Section Pipeline.
 Variables E D : encryption -> bytes -> bytes -> bytes.
 Variable compress : compression -> N -> list bytes -> list bytes.
@@ -203,6 +220,83 @@ Definition solid_archive_chunks (cfg : config) (ctx : cctx) (swcuts : list bytes
 Definition decode_solid (e : solid_entry) (pw : bytes) (rbufs : list N) : res (list normal_entry * fin) :=
   do st <- decode_stream (s_comp (so_hdr e)) (s_enc (so_hdr e)) (s_mode (so_hdr e)) (so_phsf e) pw (so_data e) rbufs;
   Ok (inner_entries_loop (S (length st)) st).
+
+(* ---- the lazy view: SolidEntry::entries pulls its chunks from the reader as it goes ------------------------ *)
+(* decrypt_reader over the FlattenReader, no decompressor (compression = store), read with the buffer sizes
+   rbufs: Err = the reader could not be constructed (entries() itself fails: no PHSF, key derivation, short IV,
+   less than one cipher block, wrong key length); Ok (got, f) = the bytes the caller has received and how the
+   reads ended (FinErr e: a later read returned e — CBC only: a partial last block is UnexpectedEof, bad PKCS#7
+   padding of the last block is InvalidData; both are found one block late, the reader holds one block of
+   look-ahead).  The unencrypted and the CTR reader never fail once constructed. *)
+Definition decode_stream_partial (enc : encryption) (mode : cipher_mode) (phsf : option bytes) (pw : bytes)
+           (data : list bytes) (rbufs : list N) : res (bytes * fin) :=
+  match enc with
+  | ENo => Ok (concat (flat_reads data rbufs), FinOk)
+  | a =>
+    match phsf with
+    | None => Err InvalidData
+    | Some s =>
+      do key <- verify s pw;
+      let (src, iv) := read_block data in
+      if negb (N.eqb (len iv) 16) then Err UnexpectedEof else
+      match mode with
+      | MCbc => do st <- cbcr_new key iv src;
+                let (outs, f) := cbcr_reads_partial (D a) st rbufs in Ok (concat outs, f)
+      | MCtr => do st <- ctrr_new key iv src; Ok (concat (ctrr_reads (E a) st rbufs), FinOk)
+      end
+    end
+  end.
+
+(* EntryIterator::next (after the fix 66ed01cc) over a reader that delivers the bytes bs and then ends with `sf`
+   (FinOk: Ok(0), a clean end; FinErr e: the read that needs a byte behind bs returns e).  next() first probes
+   the reader with a one-byte read: Ok(0) -> None (the stream ends between two entries), an error is yielded;
+   then ChunkReader::read_chunk makes four read_exact calls per chunk, and a read_exact that needs a byte behind
+   bs gets the reader's answer: Ok(0), which read_exact turns into UnexpectedEof, or the reader's error.  Every
+   error is yielded, once (fix a1692e54).  So the chunks are parsed from bs as in Entry.inner_item; when the
+   bytes run out, the stream's own ending decides; a broken chunk (CRC) inside bs comes first. *)
+Fixpoint inner_item_lazy (sf : fin) (fuel : nat) (bs : bytes) (acc : list chunk) : res (option (list chunk * bytes)) :=
+  match fuel with
+  | O => Panic
+  | S f =>
+    match read_chunk_stream bs with
+    | Ok (c, r) => if ty_is c FEND then Ok (Some (acc ++ [c], r)) else inner_item_lazy sf f r (acc ++ [c])
+    | Err UnexpectedEof =>
+      match sf with
+      | FinOk => match acc, bs with [], [] => Ok None | _, _ => Err UnexpectedEof end
+      | FinErr e => Err e
+      | FinPanic => Panic
+      end
+    | Err k => Err k
+    | Panic => Panic
+    end
+  end.
+(* the iteration up to its end or to the first error it yields (as Entry.inner_entries_loop) *)
+Fixpoint inner_entries_lazy (sf : fin) (fuel : nat) (bs : bytes) : list normal_entry * fin :=
+  match fuel with
+  | O => ([], FinPanic)
+  | S f =>
+    match inner_item_lazy sf (S (length bs)) bs [] with
+    | Ok None => ([], FinOk)
+    | Ok (Some (cs, r)) =>
+      match parse_normal cs with
+      | Ok e => let (es, k) := inner_entries_lazy sf f r in (e :: es, k)
+      | Err k => ([], FinErr k)
+      | Panic => ([], FinPanic)
+      end
+    | Err k => ([], FinErr k)
+    | Panic => ([], FinPanic)
+    end
+  end.
+
+(* SolidEntry::entries run to its end, lazily.  Compressed streams keep the eager model (what a decompressor has
+   handed out before it fails is not predictable from the model's `decompress`). *)
+Definition decode_solid_lazy (e : solid_entry) (pw : bytes) (rbufs : list N) : res (list normal_entry * fin) :=
+  match s_comp (so_hdr e) with
+  | CNo =>
+    do (got, sf) <- decode_stream_partial (s_enc (so_hdr e)) (s_mode (so_hdr e)) (so_phsf e) pw (so_data e) rbufs;
+    Ok (inner_entries_lazy sf (S (length got)) got)
+  | _ => decode_solid e pw rbufs
+  end.
 
 End Pipeline.
 
